@@ -13,6 +13,16 @@ CLAIMED = {
    note="Trusted: Lean kernel; axioms propext, Classical.choice, Quot.sound only; gen/gen.py; harness/zdrv.c + generators "
         "(agreement on explored inputs, not all inputs); calling convention of compint_to_size (cursor = buf+*length, max_length = buffer size).",
    technique="Lean 4 proof (induction over the decode loop, refinement to exact base-128 value) + differential correspondence"),
+ 'C10': dict(
+   text="Machine-checked proof (Lean 4) that the model of range.c (range_add walk, range_merge_combined, the limit loop of "
+        "zck_get_missing_range, the snprintf/growth loop of zck_get_range_char) refines the specification 'coalesced extents of a "
+        "prefix of the missing chunks' for every index, validity vector and limit, and that the specification is ascending, "
+        "non-adjacent, covers exactly those extents, respects max(limit,1) and renders as the comma-separated list; tied to the "
+        "code by a differential correspondence run of the real range.c, with the decidable predicate evaluated on its output.",
+   design_ref="DESIGN.md section 7 C10",
+   note="Trusted: Lean kernel; axioms propext, Classical.choice, Quot.sound only; gen/gen.py (BUF_SIZE); harness/ops_range.h builds the "
+        "index through index_new_chunk and sets valid flags directly; agreement on explored inputs only.",
+   technique="Lean 4 proof (refinement of the list model to a coalescing specification, induction over the chunk list) + differential correspondence"),
 }
 
 NOT_YET = "machinery for this property is not built yet in this snapshot (work in progress; see DESIGN.md section 11 build order)"
